@@ -7,87 +7,34 @@
 import VotelibProofs.Props.C09
 import VotelibProofs.Lemmas.HAPerm
 import VotelibProofs.Lemmas.HARename
+import VotelibProofs.Lemmas.PermBase
+import VotelibProofs.Lemmas.PermSimple
+import VotelibProofs.Lemmas.PermQuota
+import VotelibProofs.Lemmas.RenameQuota
 namespace VL.C10
 open VL
 
-/-- two selection results that agree up to the order of the individually elected candidates and the order in which a
-    tie lists its members: same elected set, same tie (as a set), same number of seats carried by the tie -/
-def SlotsEquiv (r₁ r₂ : List Slot) : Prop :=
-  ∃ (e₁ e₂ T₁ T₂ : List Cand) (m : Nat),
-    r₁ = e₁.map Slot.cand ++ List.replicate m (Slot.tie T₁) ∧
-    r₂ = e₂.map Slot.cand ++ List.replicate m (Slot.tie T₂) ∧ e₁.Perm e₂ ∧ T₁.Perm T₂
+/-! ## plurality / `get_n_best`
+  `SlotsEquiv` (Lemmas/PermBase.lean): two selection results that agree up to the order of the individually elected
+  candidates and the order in which a tie lists its members — same elected set, same tie (as a set), same number of seats
+  carried by the tie.  `ExceptEquiv R`: the same exception, or results related by `R`. -/
 
-theorem cntGt_perm {v₁ v₂ : Votes} (h : v₁.Perm v₂) (t : Rat) : cntGt v₁ t = cntGt v₂ t := (h.filter _).length_eq
-theorem cntGe_perm {v₁ v₂ : Votes} (h : v₁.Perm v₂) (t : Rat) : cntGe v₁ t = cntGe v₂ t := (h.filter _).length_eq
+theorem isNth_perm {v₁ v₂ : Votes} (h : v₁.Perm v₂) {n : Nat} {t : Rat} (ht : IsNth v₁ n t) : IsNth v₂ n t :=
+  Perm.isNth_perm h ht
 
-theorem isNth_perm {v₁ v₂ : Votes} (h : v₁.Perm v₂) {n : Nat} {t : Rat} (ht : IsNth v₁ n t) : IsNth v₂ n t := by
-  obtain ⟨⟨p, hp, hpt⟩, h1, h2⟩ := ht
-  exact ⟨⟨p, h.mem_iff.mp hp, hpt⟩, by rw [← cntGt_perm h]; exact h1, by rw [← cntGe_perm h]; exact h2⟩
+theorem aboveSorted_perm {v₁ v₂ : Votes} (h : v₁.Perm v₂) (t : Rat) : (aboveSorted v₁ t).Perm (aboveSorted v₂ t) :=
+  Perm.aboveSorted_perm h t
 
-theorem aboveSorted_perm {v₁ v₂ : Votes} (h : v₁.Perm v₂) (t : Rat) : (aboveSorted v₁ t).Perm (aboveSorted v₂ t) := by
-  unfold aboveSorted
-  exact (((sortDesc_perm v₁).trans h).trans (sortDesc_perm v₂).symm).filter _
-
-theorem level_perm {v₁ v₂ : Votes} (h : v₁.Perm v₂) (t : Rat) : (level v₁ t).Perm (level v₂ t) := by
-  unfold level
-  exact (h.filter _).map _
+theorem level_perm {v₁ v₂ : Votes} (h : v₁.Perm v₂) (t : Rat) : (level v₁ t).Perm (level v₂ t) := Perm.level_perm h t
 
 /-- **Ballot-order independence of plurality / get_n_best.**  Presenting the same candidate totals in another
-    insertion order yields the same elected set and the same tie (members and seats). -/
-theorem getNBest_perm (v₁ v₂ : Votes) (h : v₁.Perm v₂) (n : Nat) (h1 : 1 ≤ n) :
-    SlotsEquiv (getNBest v₁ n) (getNBest v₂ n) := by
-  have hlen := h.length_eq
-  rcases Nat.lt_or_ge n v₁.length with hlt | hge
-  · obtain ⟨t, ht⟩ := nth_exists v₁ n h1 (Nat.le_of_lt hlt)
-    have ht2 := isNth_perm h ht
-    have hlt2 : n < v₂.length := by omega
-    rcases Nat.lt_or_ge n (cntGe v₁ t) with hno | hfit
-    · have hno2 : n < cntGe v₂ t := by rw [← cntGe_perm h]; exact hno
-      refine ⟨(aboveSorted v₁ t).map (·.1), (aboveSorted v₂ t).map (·.1), level v₁ t, level v₂ t, n - cntGt v₁ t, ?_, ?_,
-        (aboveSorted_perm h t).map _, level_perm h t⟩
-      · rw [C09.getNBest_tie v₁ n h1 hlt t ht hno, List.map_map]; rfl
-      · rw [C09.getNBest_tie v₂ n h1 hlt2 t ht2 hno2, List.map_map, cntGt_perm h]; rfl
-    · have hfit2 : cntGe v₂ t ≤ n := by rw [← cntGe_perm h]; exact hfit
-      refine ⟨(aboveSorted v₁ t).map (·.1) ++ level v₁ t, (aboveSorted v₂ t).map (·.1) ++ level v₂ t, [], [], 0, ?_, ?_,
-        ((aboveSorted_perm h t).map _).append (level_perm h t), List.Perm.refl _⟩
-      · rw [C09.getNBest_fits v₁ n h1 hlt t ht hfit]; simp [List.map_append, List.map_map, Function.comp_def]
-      · rw [C09.getNBest_fits v₂ n h1 hlt2 t ht2 hfit2]; simp [List.map_append, List.map_map, Function.comp_def]
-  · refine ⟨(sortDesc v₁).map (·.1), (sortDesc v₂).map (·.1), [], [], 0, ?_, ?_,
-      (((sortDesc_perm v₁).trans h).trans (sortDesc_perm v₂).symm).map _, List.Perm.refl _⟩
-    · rw [getNBest_all v₁ n hge]; simp [List.map_map, Function.comp_def]
-    · rw [getNBest_all v₂ n (by omega)]; simp [List.map_map, Function.comp_def]
-
-def renSlot (σ : Cand → Cand) : Slot → Slot
-  | .cand c => .cand (σ c)
-  | .tie T => .tie (T.map σ)
+    insertion order yields the same elected set and the same tie (members and seats) — for every number of seats. -/
+theorem getNBest_perm (v₁ v₂ : Votes) (h : v₁.Perm v₂) (n : Nat) :
+    SlotsEquiv (getNBest v₁ n) (getNBest v₂ n) := Perm.getNBest_perm v₁ v₂ h n
 
 /-- **Renaming equivariance of plurality / get_n_best** — for every renaming (keys are never compared). -/
 theorem getNBest_rename (σ : Cand → Cand) (votes : Votes) (n : Nat) :
-    getNBest (renVotes σ votes) n = (getNBest votes n).map (renSlot σ) := by
-  have hins : ∀ (x : Cand × Rat) (l : Votes),
-      insertDesc (σ x.1, x.2) (l.map (fun p => (σ p.1, p.2))) = (insertDesc x l).map (fun p => (σ p.1, p.2)) := by
-    intro x l
-    induction l with
-    | nil => simp [insertDesc]
-    | cons y ys ih =>
-      simp only [List.map_cons, insertDesc]
-      by_cases hlt : x.2 < y.2
-      · rw [if_pos hlt, if_pos hlt, ih]; rfl
-      · rw [if_neg hlt, if_neg hlt]; rfl
-  have hsort : ∀ l : Votes, sortDesc (l.map (fun p => (σ p.1, p.2))) = (sortDesc l).map (fun p => (σ p.1, p.2)) := by
-    intro l
-    induction l with
-    | nil => rfl
-    | cons x xs ih => simp only [List.map_cons, sortDesc]; rw [ih, hins]
-  unfold getNBest renVotes
-  simp only [hsort, List.length_map, List.getElem?_map]
-  split
-  · cases h1 : (sortDesc votes)[n-1]? <;> cases h2 : (sortDesc votes)[n]? <;> simp only [Option.map, List.map_nil]
-    split
-    · simp only [List.filter_map, List.takeWhile_map, List.map_map, List.length_map, ← List.map_take,
-        Function.comp_def, List.map_append, List.map_replicate, renSlot]
-    · simp only [← List.map_take, List.map_map, Function.comp_def, renSlot]
-  · simp only [List.map_map, Function.comp_def, renSlot]
+    getNBest (renVotes σ votes) n = (getNBest votes n).map (renSlot σ) := Perm.getNBest_rename σ votes n
 
 /-- membership of an individual winner, by value alone (distinct keys) -/
 theorem mem_getNBest_iff (votes : Votes) (hwf : C09.WF votes) (n : Nat) (h1 : 1 ≤ n) (hlen : n < votes.length)
@@ -130,8 +77,84 @@ theorem ha_rename_tie (cfg : HACfg) (σ : Cand → Cand) (hσ : Function.Injecti
     (haRun (cfg.rename σ)).tie = (haRun cfg).tie.map (fun t => (t.1.map σ, t.2)) :=
   (haRun_ren cfg σ hσ).tie
 
+/-! ## thresholds and QuotaSelector (models of C16 / C09) -/
+
+/-- **AbsoluteThreshold: ballot-order independence** — the same candidates pass (the order among equal totals may differ) -/
+theorem abs_threshold_perm (t : Rat) (eq : Bool) {v₁ v₂ : Votes} (h : v₁.Perm v₂) :
+    (absoluteThreshold t eq v₁).Perm (absoluteThreshold t eq v₂) := Perm.absThreshold_perm t eq h
+
+/-- **AbsoluteThreshold: renaming equivariance**, for every renaming -/
+theorem abs_threshold_rename (t : Rat) (eq : Bool) (σ : Cand → Cand) (v : Votes) :
+    absoluteThreshold t eq (renVotes σ v) = (absoluteThreshold t eq v).map σ := Perm.absThreshold_ren t eq σ v
+
+/-- a candidate passes by its own total alone: **symmetric candidates** (equal totals) both pass or both fail -/
+theorem abs_threshold_symmetric (t : Rat) (eq : Bool) (v : Votes) (hn : (keys v).Nodup) (a b : Cand) (x : Rat)
+    (ha : (a, x) ∈ v) (hb : (b, x) ∈ v) : a ∈ absoluteThreshold t eq v ↔ b ∈ absoluteThreshold t eq v := by
+  have key : ∀ c, (c, x) ∈ v → (c ∈ absoluteThreshold t eq v ↔ Gen.Threshold.abs_threshold_passes t eq x = true) := by
+    intro c hc
+    rw [Perm.mem_absThreshold]
+    constructor
+    · rintro ⟨y, hy, hpass⟩
+      have := find_of_mem_nodup v (c, y) hn hy
+      have h2 := find_of_mem_nodup v (c, x) hn hc
+      rw [this] at h2; injection h2 with h2; injection h2 with _ h2; rw [← h2]; exact hpass
+    · intro hpass; exact ⟨x, hc, hpass⟩
+  rw [key a ha, key b hb]
+
+/-- **RelativeThreshold: ballot-order independence** — the same exception (`ZeroDivisionError` on a zero total), or the
+    same candidates pass -/
+theorem rel_threshold_perm (t : Rat) (eq : Bool) {v₁ v₂ : Votes} (h : v₁.Perm v₂) :
+    ExceptEquiv List.Perm (relativeThreshold t eq v₁) (relativeThreshold t eq v₂) := Perm.relThreshold_perm t eq h
+
+/-- **RelativeThreshold: renaming equivariance**, for every renaming -/
+theorem rel_threshold_rename (t : Rat) (eq : Bool) (σ : Cand → Cand) (v : Votes) :
+    relativeThreshold t eq (renVotes σ v) = (relativeThreshold t eq v).map (List.map σ) := Perm.relThreshold_ren t eq σ v
+
+/-- **QuotaSelector: ballot-order independence**, for every quota function, `accept_equal` and `on_more_over_quota` -/
+theorem quota_selector_perm (quota : Rat → Nat → Rat) (ae : Bool) (om : OnMore) {v₁ v₂ : Votes} (h : v₁.Perm v₂) (n : Nat) :
+    ExceptEquiv SlotsEquiv (quotaSelector quota ae om v₁ n) (quotaSelector quota ae om v₂ n) :=
+  Perm.quotaSelector_perm quota ae om h n
+
+/-- **QuotaSelector: renaming equivariance**, for every renaming -/
+theorem quota_selector_rename (quota : Rat → Nat → Rat) (ae : Bool) (om : OnMore) (σ : Cand → Cand) (v : Votes) (n : Nat) :
+    quotaSelector quota ae om (renVotes σ v) n = (quotaSelector quota ae om v n).map (List.map (renSlot σ)) :=
+  Perm.quotaSelector_ren quota ae om σ v n
+
+/-! ## QuotaDistributor and LargestRemainder (model of C02)
+  `DistEquiv r₁ r₂` (Lemmas/PermQuota.lean): the two result dicts are the same map key -> seats (`look` = `dict.get`), where a
+  `Tie` key is a set (the model keeps its members sorted).  `renSel σ`: every key of a result dict renamed.
+  The over-award policy `subtract` is not covered (listed as unproved: `qd_perm_subtract`). -/
+
+/-- **QuotaDistributor: ballot-order independence** (policies `error`, `ignore`): the same dict up to insertion order -/
+theorem quota_distributor_perm (cfg : QD.Cfg) (hpol : cfg.onOver ≠ .subtract) {v₁ v₂ : Votes} (h : v₁.Perm v₂)
+    (hnd : (v₁.map (·.1)).Nodup) (n : Nat) (prev maxS : QD.IMap) :
+    ExceptEquiv List.Perm (QD.quotaDistribute cfg v₁ n prev maxS) (QD.quotaDistribute cfg v₂ n prev maxS) :=
+  Perm.quotaDistribute_perm cfg hpol h hnd n prev maxS
+
+/-- **QuotaDistributor: renaming equivariance** for every injective renaming (votes, previous gains and caps renamed) -/
+theorem quota_distributor_rename (σ : Cand → Cand) (hσ : Function.Injective σ) (cfg : QD.Cfg) (hpol : cfg.onOver ≠ .subtract)
+    (v : Votes) (hnd : (v.map (·.1)).Nodup) (n : Nat) (prev maxS : QD.IMap) :
+    QD.quotaDistribute cfg (renVotes σ v) n (Perm.renI σ prev) (Perm.renI σ maxS) =
+      (QD.quotaDistribute cfg v n prev maxS).map (Perm.renSel σ) :=
+  Perm.quotaDistribute_ren σ hσ cfg hpol v hnd n prev maxS
+
+/-- **LargestRemainder: ballot-order independence** (policies `error`, `ignore`): every party and every reported tie (as a
+    set) holds the same number of seats, or both runs raise the same exception -/
+theorem largest_remainder_perm (cfg : QD.Cfg) (hpol : cfg.onOver ≠ .subtract) {v₁ v₂ : Votes} (h : v₁.Perm v₂)
+    (hnd : (v₁.map (·.1)).Nodup) (n : Nat) (prev maxS : QD.IMap) (hprev : (prev.map (·.1)).Nodup) :
+    ExceptEquiv Perm.DistEquiv (QD.largestRemainder cfg v₁ n prev maxS) (QD.largestRemainder cfg v₂ n prev maxS) :=
+  Perm.largestRemainder_perm cfg hpol h hnd n prev maxS hprev
+
+/-- **LargestRemainder: renaming equivariance** for every injective renaming: the result for the renamed parties is the
+    renamed result (same insertion order, every key renamed) -/
+theorem largest_remainder_rename (σ : Cand → Cand) (hσ : Function.Injective σ) (cfg : QD.Cfg) (hpol : cfg.onOver ≠ .subtract)
+    (v : Votes) (hnd : (v.map (·.1)).Nodup) (n : Nat) (prev maxS : QD.IMap) (hprev : (prev.map (·.1)).Nodup) :
+    QD.largestRemainder cfg (renVotes σ v) n (Perm.renI σ prev) (Perm.renI σ maxS) =
+      (QD.largestRemainder cfg v n prev maxS).map (Perm.renSel σ) :=
+  Perm.largestRemainder_ren σ hσ cfg hpol v hnd n prev maxS hprev
+
 /-- non-vacuity -/
 example : SlotsEquiv (getNBest [(1,5),(2,3),(3,3)] 2) (getNBest [(3,3),(1,5),(2,3)] 2) :=
-  getNBest_perm _ _ (by decide) 2 (by decide)
+  getNBest_perm _ _ (by decide) 2
 
 end VL.C10
